@@ -184,6 +184,25 @@ CLAIMED = {
         "Trusted: Coq kernel; cells are opaque (numpy casting between types not modelled; only values of the column's own type "
         "are written); h5py compound datasets exercised, not modelled; units / column definitions are not part of the model.",
         "DESIGN.md section 5 C16", TECH),
+    "C20": (
+        "Coq theorems over the store model with H5Ocopy as the appended address-shifted copy of the source store (within a file "
+        "or across files): in ANY store that still holds the shifted source nodes, the walk of the copy of every copyable kind "
+        "(block, array, tag, multi-tag, section to any depth, property) equals the walk of the source as it was (complete, "
+        "recursive); a link a->b of the source is the link copy(a)->copy(b) under the same name and order, and no link of the "
+        "copy leads to a node that existed before (internal links); the destination's nodes and, until the copy is linked in, "
+        "the file's walk are untouched; writes outside the copy and new nodes keep the copy, writes to the copy and new nodes "
+        "keep every old walk (independence, both directions); fresh ids are pairwise distinct, differ from every id generated "
+        "before, leave other attributes / link targets / order alone and rename id-named links along; the API call on an existing "
+        "destination name fails returning the state it was given. Tie: histories with up to 4 copy calls of every kind, both id "
+        "policies, with/without a new name, recursive or not, interleaved with all other operations, compared with the model "
+        "after every step (api_copy incl. the shallow section copy and the return-value lookup); model-free predicates on the "
+        "implementation: copy walk = source walk modulo name and an injective renaming onto new ids, returned entity is the "
+        "copy, internal links of block copies followed as HDF5 objects, refused copy leaves the file's walk, one call never "
+        "changes both sides of a pair; plus a cross-file phase on real files (no model). Known finding: kept ids inside one file.",
+        "Trusted: Coq kernel; H5Ocopy = shifted append (sharing preserved, every hard link followed) is exercised, not proven; "
+        "cross-file copies are tied by the predicates only; data frames are copied by the same H5Group.copy but are not part "
+        "of the store model (C16 covers their content).",
+        "DESIGN.md section 5 C20", TECH),
 }
 
 PENDING_REASON = ("check not built yet in this revision (work in progress: the property is meant to be decided by Coq "
